@@ -424,7 +424,59 @@ class Check:
             r['script'] = script
         return r
 
+    def fix_angles(s, model, order):
+        """The solver picks values for sin(k*t), cos(k*t) as free reals (subject to the axioms); an angle input t that only
+        feeds trigonometric functions is then set to atan2(sin, cos)/k so that the native run sees the same sines and cosines."""
+        import math as _m
+        best = {}
+        pi_val = float(model.get('pi') or _m.pi)
+        def evalf(x, env):
+            if not is_sym(x):
+                return float(x)
+            k = node(x)
+            if k[0] == 'var':
+                if k[1] == 'pi':
+                    return pi_val
+                return env[k[1]]
+            if k[0] in ('+', '-', '*', '/'):
+                a, b = evalf(k[1], env), evalf(k[2], env)
+                return a + b if k[0] == '+' else a - b if k[0] == '-' else a * b if k[0] == '*' else a / b
+            if k[0] == 'neg':
+                return -evalf(k[1], env)
+            raise KeyError(k[0])
+        names = [nm for nm, lt in order if lt in mir.FLOATS]
+        for key, val in model.items():
+            mm = re.match(r'^(sin|cos)!(\d+)$', key)
+            if not mm or val is None:
+                continue
+            t = ('t', int(mm.group(2)))
+            arg = node(t)[2]
+            from .terms import subterms
+            vs = [node(('t', i))[1] for i in subterms([arg]) if node(('t', i))[0] == 'var' and node(('t', i))[1] != 'pi']
+            if len(vs) != 1 or vs[0] not in names:
+                continue
+            try:
+                c1 = evalf(arg, {vs[0]: 1.0}) - evalf(arg, {vs[0]: 0.0})
+                c0 = evalf(arg, {vs[0]: 0.0})
+            except (KeyError, ZeroDivisionError):
+                continue
+            if c1 == 0:
+                continue
+            best.setdefault((vs[0], c1, c0), {})[mm.group(1)] = float(val)
+        out = dict(model)
+        done = set()
+        for (v, c1, c0), d in sorted(best.items(), key=lambda kv: abs(kv[0][1])):
+            if v in done or 'sin' not in d or 'cos' not in d:
+                continue
+            out[v] = Fraction((_m.atan2(d['sin'], d['cos']) - c0) / c1)
+            done.add(v)
+        return out
+
     def model_vector(s, model, order):
+        try:
+            model = s.fix_angles(model, order)
+        except Exception:
+            pass
         vec = []
         for nm, lt in order:
             v = model.get(nm)
